@@ -8,6 +8,7 @@
     C <n> | <state>
     create <Type> <nameHex> <ioe> <tmplEnc> <attrsEnc> | now= parts= cfg= ok= parents= file= attrs= <state>
     delete <Type> <nameHex> <cascade> | found= ok= <state>
+    X <signal> <operation line>          the worker process died executing that operation
     (create/delete lines may end in ` http`: the call went through PUT/DELETE /v1/objects/… and HttpHandler::ProcessRequest)
     <state> = objs=<T:nameHex:api:active:hash,…> items=<T:nameHex,…> files=<hex,…> glob=<hash>
   Output: MISMATCH / SPECFAIL / BADLINE lines and a final STATS line.
@@ -219,7 +220,7 @@ def hazards (i : CreateIn) : String :=
 structure DSt where
   types : List TypeInfo := []
   before : World := default
-  st : St := ⟨[], [], [], []⟩
+  st : St := ⟨[], [], [], [], []⟩
   deps : List (Key × Key) := []
   fileOf : List (Key × Str) := []
   caseNo : Nat := 0
@@ -236,6 +237,8 @@ structure DSt where
   delRefusedDeps : Nat := 0
   cascades : Nat := 0
   httpOps : Nat := 0
+  crashes : Nat := 0
+  applyCreates : Nat := 0
   textIdentical : Nat := 0
   parsedOk : Nat := 0
   parsedBad : Nat := 0
@@ -251,7 +254,7 @@ structure DSt where
 def stOfWorld (w : World) (fileOf : List (Key × Str)) (deps : List (Key × Key)) : St :=
   { objs := w.objs.map (fun o => { key := o.key, api := o.api, active := o.active,
                                    file := ((fileOf.find? (·.1 = o.key)).map (·.2)).getD [] }),
-    items := w.items, files := w.files, deps := deps }
+    items := w.items, files := w.files, deps := deps, hostServices := [] }
 
 def sortKeys (ks : List Key) : List String := (ks.map (fun k => showS k.ty ++ ":" ++ hexOf k.name)).toArray.qsort (· < ·) |>.toList
 
@@ -289,6 +292,10 @@ def handle (d : DSt) (n : Nat) (line : String) : IO DSt := do
       return { d with before := w, st := stOfWorld w [] [], deps := [], fileOf := [], caseNo := d.caseNo + 1,
                       caseInteresting := false, caseFailed := [], tainted := false }
     | none => IO.println s!"BADLINE line={n}"; return d
+  | "X" :: sig :: _ =>
+    -- the process executing the operations died in this operation
+    let d := { d with crashes := d.crashes + 1 }
+    specfail d n ("no_crash" ++ (if sig == "" then "" else ""))
   | "create" :: ty :: nameH :: ioe :: tmplE :: attrsE :: via =>
     if via != [] && via != ["http"] then IO.println s!"BADLINE line={n}"; return d else
     let d := if via == ["http"] then { d with httpOps := d.httpOps + 1 } else d
@@ -310,6 +317,10 @@ def handle (d : DSt) (n : Nat) (line : String) : IO DSt := do
         | none => none
       let res ← (getKV kv "ok") >>= parseRes
       let parents ← (splitList (← getKV kv "parents")).mapM parseKeyEnt
+      let children ← (splitList ((getKV kv "children").getD "-")).mapM parseKeyEnt
+      -- an object that depends on itself (F-C17g) is not one of its own generated children
+      let self : Option Key := (unhex nameH).map (fun nm => (⟨S ty, nm⟩ : Key))
+      let children := children.filter (fun c => some c != self)
       let file ← match getKV kv "file" with
         | some "-" => some none
         | some s => (unhex s).map some
@@ -319,7 +330,8 @@ def handle (d : DSt) (n : Nat) (line : String) : IO DSt := do
         | some s => (decDict s).map some
         | none => none
       let after ← parseWorld kv
-      pure ({ cfg := cfg, res := res, parts := parts, now := now, file := file, attrs := attrs, after := after }, parents)
+      pure ({ cfg := cfg, res := res, parts := parts, now := now, parents := parents, children := children,
+              file := file, attrs := attrs, after := after }, parents)
     match inp, obs with
     | some i, some (o, parents) =>
       let k : Key := ⟨i.ty, i.name⟩
@@ -352,13 +364,15 @@ def handle (d : DSt) (n : Nat) (line : String) : IO DSt := do
           | none => .pathBroken
         let path := o.file.getD (S "?")
         let apiO := ((o.after.find k).map (·.api)).getD true
-        let (mst, mres) := if o.cfg.isNone then (d.st, Res.fail) else createObject d.st k path parents fault apiO
+        let (mst, mres) := if o.cfg.isNone then (d.st, Res.fail) else createObject d.st k path parents fault apiO o.children
         -- the state machine describes calls whose text is the one object statement; a text with foreign
         -- statements (reported by the spec as structure_preserved / others_untouched) is outside it
         let clean := match o.cfg with
           | some cfg => structurePreserved i o cfg
           | none => true
-        let orphan := o.res == some .ok && !present && o.after != d.before
+        let zombieParent := parents.any (fun p => !o.after.has p && o.after.objs.any (fun x => x.key.ty = p.ty))
+        let parents := parents.filter (fun p => o.after.has p)
+        let orphan := (o.res == some .ok && !present && o.after != d.before) || zombieParent
         if !clean || orphan then d := { d with tainted := true }
         if !d.tainted && o.cfg.isSome && some mres != o.res then
           d ← mismatch d n "create-result" s!"impl={repr o.res} model={repr mres}"
@@ -387,12 +401,13 @@ def handle (d : DSt) (n : Nat) (line : String) : IO DSt := do
         | some cl => d ← specfail d n (cl ++ hazards i)
         | none => pure ()
         -- bookkeeping
+        if !o.children.isEmpty then d := { d with applyCreates := d.applyCreates + 1 }
         if o.cfg.isNone then d := { d with cfgRejected := d.cfgRejected + 1 }
         else if existed then d := { d with dupRefused := d.dupRefused + 1 }
         else if o.res == some .ok && present then d := { d with createdOk := d.createdOk + 1 }
         else if o.res == some .ok then d := { d with ignored := d.ignored + 1 }
         else d := { d with failed := d.failed + 1 }
-        let deps := if present && !existed then parents.map (fun p => (k, p)) ++ d.deps else d.deps
+        let deps := if present && !existed then parents.map (fun p => (k, p)) ++ (o.children.map (fun c => (c, k)) ++ d.deps) else d.deps
         let fileOf := match o.file with
           | some p => if present && !existed then (k, p) :: d.fileOf else d.fileOf
           | none => d.fileOf
@@ -440,4 +455,4 @@ def handle (d : DSt) (n : Nat) (line : String) : IO DSt := do
 def main : IO Unit := do
   let stdin ← IO.getStdin
   let d ← foldLines stdin handle ({} : DSt)
-  IO.println s!"STATS cases={d.caseNo} steps={d.steps} creates={d.creates} created={d.createdOk} cfg_rejected={d.cfgRejected} create_failed={d.failed} dup_refused={d.dupRefused} ignored={d.ignored} deletes={d.deletes} deleted={d.deletedOk} refused_non_api={d.delRefusedNonApi} refused_deps={d.delRefusedDeps} cascades={d.cascades} http_ops={d.httpOps} text_identical={d.textIdentical} text_parsed={d.parsedOk} text_unparsed={d.parsedBad} nontrivial={d.nontrivial} mismatches={d.mismatches} specfails={d.specfails}"
+  IO.println s!"STATS cases={d.caseNo} steps={d.steps} creates={d.creates} created={d.createdOk} cfg_rejected={d.cfgRejected} create_failed={d.failed} dup_refused={d.dupRefused} ignored={d.ignored} deletes={d.deletes} deleted={d.deletedOk} refused_non_api={d.delRefusedNonApi} refused_deps={d.delRefusedDeps} cascades={d.cascades} http_ops={d.httpOps} crashes={d.crashes} apply_generated={d.applyCreates} text_identical={d.textIdentical} text_parsed={d.parsedOk} text_unparsed={d.parsedBad} nontrivial={d.nontrivial} mismatches={d.mismatches} specfails={d.specfails}"
